@@ -4310,8 +4310,11 @@ class UDFFileEntry:
         child = None
 
         for fi_desc in self.fi_descs:
-            if latin1_currpath and fi_desc.encoding == 'latin-1':
-                eq = fi_desc.fi == latin1_currpath
+            if fi_desc.encoding == 'latin-1':
+                # An 8-bit identifier can only match a name that can be
+                # expressed in 8 bits; the same bytes in a 16-bit identifier
+                # are a different name.
+                eq = bool(latin1_currpath) and fi_desc.fi == latin1_currpath
             else:
                 eq = fi_desc.fi == ucs2_currpath
 
